@@ -24,7 +24,9 @@ META = {
         "Operation tag written is a fixpoint of the input normalisation and every remap target is a real tag; "
         "Transaction's serializer and its hand-written deserializer agree on the outer field names and both flatten. "
         "R3 (MCP): the input sniffer routes '['-prefixed text to serde_json and everything else to the DSL parser; "
-        "convert_to_dsl calls the shared writer. Exactness of Decimal Display/FromStr is trusted, not decided."),
+        "convert_to_dsl calls the shared writer. R4 (tokens): each token rule a placeholder is matched against accepts every text of that "
+        "kind the writer can print (all alphanumeric tickers, all digits[.digits] decimals, all dddd-dd-dd dates; character-level PEG "
+        "evaluation of the token rule on all words up to a bound). Exactness of Decimal Display/FromStr is trusted, not decided."),
     "trusted_base": ["rust_decimal Display/FromStr round-trip exactly for every scale (trusted API)",
                      "chrono %Y-%m-%d prints what the grammar's date rule and parse_from_str read",
                      "serde derive writes and reads the same renamed names for one attribute set",
@@ -594,11 +596,53 @@ def mcp_routing(F, rep):
            "the convert_to_dsl tool does not reach cgt_core::dsl::transactions_to_dsl", F.bodies[tools[0]].loc() if tools else "", key="R3:convert_to_dsl:shared")
 
 
+def token_languages(ctx, rep):
+    """R4 (tokens): R1 matches a placeholder against a token rule by KIND (a ticker goes where the grammar wants a ticker); this
+    rule decides that the token rule really accepts every text the writer can put there: any non-empty alphanumeric ticker, any
+    `digits[.digits]` decimal (what Decimal's Display prints for a non-negative value), any `dddd-dd-dd` date. The token rules
+    are evaluated as PEGs at character level on all words up to a bound over representative characters of each class
+    (bounded: length ≤ 4 for tickers, ≤ 6 for decimals; exact length for dates)."""
+    import itertools
+    import re
+    from grammar import ATOM_KIND
+    g = Grammar(ctx.S["grammar"])
+
+    def words(alpha, lo, hi):
+        for n in range(lo, hi + 1):
+            for w in itertools.product(alpha, repeat=n):
+                yield "".join(w)
+    n = 0
+    for rule, kind in ATOM_KIND.items():
+        if rule not in g.rules or not g.is_atomic(rule):
+            continue
+        if kind == "ticker":
+            expect = words("07AZaz", 1, 4)
+            what = "alphanumeric ticker"
+        elif kind == "decimal":
+            pat = re.compile(r"[0-9]+(\.[0-9]+)?")
+            expect = (w for w in words("07.", 1, 6) if pat.fullmatch(w))
+            what = "non-negative decimal as printed by Display"
+        elif kind == "date":
+            expect = ("".join(d[:4]) + "-" + "".join(d[4:6]) + "-" + "".join(d[6:]) for d in itertools.product("09", repeat=8))
+            what = "date as printed by %Y-%m-%d"
+        else:
+            continue
+        n += 1
+        bad = next((w for w in expect if not g.lex_accepts(rule, w)), None)
+        rep.ob("R4", f"token:{rule}", bad is None, f"token rule `{rule}` accepts every {what} (bounded enumeration)" if bad is None else
+               f"the writer can print the {what} `{bad}` where the grammar wants `{rule}`, but the token rule does not match it: "
+               "the written ledger does not parse back", "crates/cgt-core/src/parser.pest", key=f"R4:token:{rule}")
+    rep.count("token_rules_checked", n)
+    if n < 4:
+        rep.unresolved("R4", "token-rules", f"only {n} token rules found (date, ticker and the decimal tokens expected)")
+
+
 def run(ctx, rep):
     if ctx.S is None or "error" in ctx.S["grammar"]:
         rep.unresolved("R1", "grammar", "grammar facts unavailable")
     else:
         writer_vs_grammar(ctx, rep)
+        token_languages(ctx, rep)
     json_names(ctx.F, rep)
     mcp_routing(ctx.F, rep)
 
